@@ -34,6 +34,8 @@ def cases(draw, tier="quick"):
     nl = draw(st.sampled_from([[False, False], [False, False], [True, False], [False, True]]))
     P["no_listen"] = nl
     P["relay"] = draw(st.booleans())
+    if P["relay"] and draw(st.integers(0, 3)) == 0:
+        P["no_listen"] = [True, True]          # the relay is the only path, in every generation
     P["kills"] = draw(st.sampled_from([0, 1, 1, 2, 3, 4]))
     P["cand_kills"] = draw(st.sampled_from([0, 0, 1, 2]))
     P["w_kill"] = draw(st.sampled_from([1, 2, 4]))
